@@ -19,6 +19,49 @@ CHECKS = {
         "Trusted: the 20-line reference model; interval membership is observed through NaN costs; shapes <= 250.",
         "E1",
     ),
+    "C01": (
+        "model_checking",
+        "TLA+ model of the documented machine checked exhaustively by TLC; every terminal state of the TLC graph "
+        "(= every maximal behaviour) replayed on PandoraMachine/pandora.run with call spies; plus explicit-state "
+        "enumeration of all step sequences, suffix namings and check/run histories on the real machine against an "
+        "independent automaton (three-way agreement)",
+        "TLC enumerates every reachable state of the documented machine (MaxLen 4/5, MaxScales 3) and checks its "
+        "invariants; every behaviour is replayed against the implementation (verdict, execution log with scale, side "
+        "and argument roles, idle end state). All 11 111 (quick) / 1 111 111 (thorough) step sequences, all suffix "
+        "namings, single invalid method/parameter, depth-12 merged BFS and all check/run words of length <= 3 on one "
+        "machine are executed on the real code.",
+        "Trusted: the TLA+ model and the 15-line Python automaton transcribe sequencing.rst (they must agree with each "
+        "other, else exit 2); optimisation/segmentation are identity stubs; observation by class-level spies.",
+        "E3",
+    ),
+    "C15": (
+        "exploration",
+        "bounded exhaustive enumeration of shapes x scales x factors x intervals and single/paired departures; every "
+        "case is a real pandora.run observed step by step and compared with a reference model of the pyramid",
+        "Every image shape 8..13 (26..29 for factor^levels 9) x num_scales {2,3} x scale_factor {2,3} x user intervals, "
+        "and every single / pair of departures (marge, 2 bands, masked pixel, window, measure, steps before/after, "
+        "validation) is run through the real per-scale loop; per level the image size, the sampled/computable "
+        "disparities, every pixel's searched interval and the untouched inputs are compared with the statement.",
+        "Trusted: reference model of the statement; instance-level callback wrappers; degenerate pyramids (coarsest "
+        "image smaller than window+2) skipped; non-divisible user intervals accept both roundings.",
+        "E1",
+    ),
+    "C18": (
+        "exploration",
+        "iteration-schedule exploration of the numba prange kernels from their Python source (all permutations of "
+        "outer iterations + read/write conflict detection = partial-order argument), bit-exact conformance of the "
+        "compiled kernels under 6 thread counts, process matrix over threading configurations, exhaustive two-machine "
+        "check/run histories",
+        "For each of the 9 prange kernels every enumerated tiny input is executed under every outer-iteration "
+        "permutation with tracked arrays: no cell may be written by two iterations or written by one and read by "
+        "another (so all schedules are equivalent), all orders must agree bit for bit and the compiled kernel must "
+        "return the same for 1,2,3,4,8,16 threads. Whole pipelines are compared across separate processes (threads x "
+        "layer x parallel switch) and across every word of check/run operations on two machines; inputs are compared "
+        "before/after every run.",
+        "Trusted: numba runs prange iterations as independent units (native interleavings are not driven); OpenMP / "
+        "workqueue runtimes; kernel inputs limited to the enumerated alphabets.",
+        "E4",
+    ),
 }
 
 PENDING_REASON = "check not built yet (work in progress in this session; see DESIGN.md section 7 for the build order)"
